@@ -332,6 +332,23 @@ class C13(RebuildProp):
                     for f in c["tree"]["files"]:
                         f["mode"] = mode
                     out.append(c)
+        # something in the destination is in the way of a copy (a regular file where the torrent has a directory): the run
+        # may stop with the error, or go on - but it must not count files it could not place
+        for v in (1, 2, 3):
+            for sh, sizes in (("D2n", (B + 5, 2 * B)), ("D4", (B, 5, 2 * B + 1, 7)), ("D5", (B + 1, 5, 2 * B))):
+                for route in ("lib", "cli"):
+                    c = self.scen(rng, B, v, (sh, sizes), lambda fi, f: [self.cand(rng, "intact")], nsearch=1)
+                    c.update(file_in_way=True, route=route, clauses=["C13.countsafe"], rel_paths=False, dest_dot=None,
+                             dest_spelling=None)
+                    out.append(c)
+        # one Assembler object used for two jobs (the first output moved away in between): files that own all their
+        # pieces (starting and ending on piece boundaries, single files) next to files that share pieces
+        for v in (1, 2, 3):
+            for sh, sizes in (("D3", (2 * B, B, B + 5)), ("S1", (3 * B,)), ("D2", (B, 2 * B)), ("D3", (5, 2 * B, 7))):
+                c = self.scen(rng, B, v, (sh, sizes), lambda fi, f: [self.cand(rng, "intact")], nsearch=1, repeat=True)
+                c.update(reuse_obj=True, route="lib", rel_paths=False, dest_dot=None)
+                c["clauses"] = [x for x in c["clauses"] if not x.startswith("M")]
+                out.append(c)
         # the model-checked universe of FindMatches replayed into the real rebuild (piece length 2)
         out += rebuild_universe(self.clauses, rng, None if tier == "thorough" else 1200)
         # systematic: files ending exactly on a boundary, empty files in every position
